@@ -11,7 +11,7 @@ MAPS = [(None, (), (), False),
         ("p.Heading1 => h1.title\nr.Strong => b\ncomment-reference => span.c\np.Normal => !", ("Normal",), (), True),
         ("b => b\ni => i\nu => u\nstrike => del\np => div", (), (), False)]
 TAG = re.compile(r"<[^>]*>")
-LIVE_HEADER = """From Mammoth Require Import LiveSpec EndToEndSpec NotesSpec RawSpec.
+LIVE_HEADER = """From Mammoth Require Import LiveSpec EndToEndSpec NotesSpec RawSpec CommentsSpec.
 Definition src_of (c : list (str * dpart) * bool * list (str * img_src) * api_opts * option (str * list str) * option (str * list str)) : source :=
   let '(parts, named, linked, a, _, _) := c in mkSource (package_of parts) named linked.
 Definition chk_live c := live_agrees (src_of c).
@@ -24,6 +24,9 @@ Definition chk_notes c := notes_agree (src_of c).
 Definition chk_notes_domain c := notes_domain (src_of c).
 Definition chk_raw c := raw_agrees (src_of c).
 Definition chk_raw_domain c := in_raw_domain (src_of c).
+Definition chk_full c := full_text_agrees (src_of c) (opts_of c).
+Definition chk_full_domain c := full_text_in_domain (src_of c) (opts_of c).
+Definition chk_cmts c := comments_agree (src_of c).
 """
 
 
@@ -107,7 +110,7 @@ def run(ctx):
                 ctx.sample({"live_text": exp[:200], "html": html.value[:200]})
         terms.append(A.case_term(parts, False, {}, opts, html, raw))
         metas.append(meta)
-    for i in ctx.coq_eval("c01", A.HEADER + LIVE_HEADER, terms, A.CASE_TYPE, "chk_api", shard=12, more=("chk_live", "chk_live_domain", "chk_e2e", "chk_e2e_domain", "chk_notes", "chk_notes_domain", "chk_raw", "chk_raw_domain"))[:5]:
+    for i in ctx.coq_eval("c01", A.HEADER + LIVE_HEADER, terms, A.CASE_TYPE, "chk_api", shard=12, more=("chk_live", "chk_live_domain", "chk_e2e", "chk_e2e_domain", "chk_notes", "chk_notes_domain", "chk_raw", "chk_raw_domain", "chk_full", "chk_full_domain", "chk_cmts"))[:5]:
         ctx.violation("correspondence", "model and implementation disagree",
                       dict(metas[i], obligation="correspondence Model/Api.v vs mammoth.convert_to_html / extract_raw_text"), False)
     # the reader-half theorem's statement, evaluated: items of what the model reader returns = the Coq live-text specification
@@ -127,6 +130,13 @@ def run(ctx):
         ctx.violation("proof", "extract_raw_text is not the expansion of the body's marked live items (Proofs/RawSpec.v: raw_agrees is false)",
                       dict(metas[i], obligation="Props/C01.v: C01_raw_text evaluated on this package"), False)
     dist["in_raw_text_theorem_domain"] = len(terms) - len(ctx.more_bad["chk_raw_domain"])
+    for i in ctx.more_bad["chk_full"][:5]:
+        ctx.violation("proof", "the text of the returned HTML is not the text computed from the XML of the body, notes and comments parts (Proofs/CommentsSpec.v: full_text_agrees is false)",
+                      dict(metas[i], obligation="Props/C01.v: C01_html_text_from_xml evaluated on this package"), False)
+    dist["in_whole_text_theorem_domain"] = len(terms) - len(ctx.more_bad["chk_full_domain"])
+    for i in ctx.more_bad["chk_cmts"][:5]:
+        ctx.violation("proof", "a comment's elements do not carry the live items of the comment's XML (Proofs/CommentsSpec.v: comments_agree is false)",
+                      dict(metas[i], obligation="Props/C01.v: C01_comments_items evaluated on this package"), False)
     ctx.coverage["traces_validated_against_impl"] = len(terms)
     ctx.coverage["input_distribution"] = dist
     ctx.coverage["rule"] = ("packages from the full grammar (runs, hyperlinks, fields, sdt, ins/del, deleted paragraph marks, smart tags, text boxes, symbols, "
